@@ -290,7 +290,49 @@ def run_shard(shard):
                         if not lockable and bank.cells[2] != lock0:
                             add_violation(res, f"C10:vendor:lock-byte-changed:{name}", f"{name} ({fam}, {opts}): lock byte {lock0:#x} -> {bank.cells[2]:#x}", case)
                         res["distinct"].add(("vendor", name, kind))
-        sample(res, {"user_declared_values": [n for n, a, c, t in classes]})
+        # vendor values DERIVED from value classes that have been written above, re-declaring bank / locations with another
+        # memory type: writability and the lock protocol follow the value's OWN locations, whatever its parent's were
+        from dali.exceptions import MemoryValueNotWriteable as _NW
+        bycls = {n: c for n, a, c, t in classes}
+        VB2 = MemoryBank(10, 0x20, has_lock=True)
+        derived = [("PlainFromLockable", "Reversed3Lockable", (0x04, 0x05), MemoryType.NVM_RW), ("ReadOnlyFromWritable", "Contiguous", (0x06, 0x07), MemoryType.NVM_RO),
+                   ("RomFromRam", "Scattered", (0x08,), MemoryType.ROM), ("LockableFromPlain", "LittleEndian", (0x10, 0x11), MemoryType.NVM_RW_L)]
+        for name, parent, addrs, t in derived:
+            cls = type("D" + name, (bycls[parent],), {"bank": VB2, "locations": tuple(MemoryLocation(a, type_=t) for a in addrs)})
+            for fam in ("gear", "device"):
+                for lock0 in (0xFF, 0xAA):
+                    cells = [0x20, 0x00, lock0] + [(0x40 + 5 * i) & 0xFF for i in range(3, 0x21)]
+                    bank = G.MemBank(10, cells, writable=set(range(3, 0x21)), lockable={0x10, 0x11}, has_lock=True)
+                    before = list(bank.cells)
+                    if fam == "gear":
+                        bus = G.Bus([G.Gear(short=3, banks={10: bank})])
+                        addr = GearShort(3)
+                    else:
+                        bus = D.Bus24([D.Device(short=5, banks={10: bank})])
+                        addr = DeviceShort(5)
+                    raw = bytes((0x21 * (i + 1)) & 0xFF for i in range(len(addrs)))
+                    kind, val, n = G.run_sequence(cls.write_raw(addr, raw), bus, 200)
+                    case = {"t": "vendor", "name": name, "fam": fam, "opts": {}, "lock": lock0}
+                    res["evaluations"] += 1
+                    res["transitions"] += n
+                    if t in (MemoryType.NVM_RO, MemoryType.ROM):
+                        if kind != "raise" or not isinstance(val, _NW) or n != 0 or bank.cells != before:
+                            add_violation(res, f"C10:vendor:derived-read-only-not-refused:{name}", f"value {name} ({t.name} locations {[hex(a) for a in addrs]}) derived from the written "
+                                          f"value {parent} ({fam}): {kind} {val!r} after {n} commands; memory changed: {bank.cells != before}", case)
+                        continue
+                    want = list(before)
+                    for a, b in zip(addrs, raw):
+                        want[a] = b
+                    if kind != "return" or bank.cells[3:] != want[3:]:
+                        add_violation(res, f"C10:vendor:derived-write:{name}", f"value {name} derived from {parent} ({fam}): {kind} {val!r}; differing locations "
+                                      f"{[hex(i) for i in range(3, 0x21) if bank.cells[i] != want[i]]}", case)
+                    if t == MemoryType.NVM_RW_L and bank.cells[2] == 0x55:
+                        add_violation(res, f"C10:vendor:left-unlocked:{name}", f"{name} ({fam}): lock byte still 0x55", case)
+                    if t != MemoryType.NVM_RW_L and bank.cells[2] != lock0:
+                        add_violation(res, f"C10:vendor:lock-byte-changed:{name}", f"{name} ({t.name} locations, derived from the lockable {parent}; {fam}): lock byte "
+                                      f"{lock0:#x} -> {bank.cells[2]:#x}", case)
+                    res["distinct"].add(("vendor-derived", name, kind))
+        sample(res, {"user_declared_values": [n for n, a, c, t in classes], "derived_from_written_values": [d[0] for d in derived]})
         return res
     if shard[0] == "addr_sweep":
         # the same writes addressed to EVERY short address (gear and device), one fault at every answering step
